@@ -173,9 +173,15 @@ func runC14(r *Report, rng *rand.Rand, thorough bool) {
 								ctors = []bool{false, true}
 							}
 							for _, wopts := range ctors {
-								id := fmt.Sprintf("%s/%s/%d/%d/%d/%d/%v", v.name, rq.op, n, short, sn, sshort, wopts)
+								// the observed request is the first, second or third one served by the mounted handler
+								warm := 0
+								if n+sn >= 2 {
+									warm = rng.Intn(3)
+								}
+								r.Dist[fmt.Sprintf("earlier_requests_on_the_handler=%d", warm)]++
+								id := fmt.Sprintf("%s/%s/%d/%d/%d/%d/%v/w%d", v.name, rq.op, n, short, sn, sshort, wopts, warm)
 								scenarios = append(scenarios, map[string]any{"id": id, "pkg": v.name,
-									"opts": map[string]any{"middlewares": n, "short_circuit": short, "strict_middlewares": sn, "strict_short_circuit": sshort, "strict_with_options": wopts},
+									"opts": map[string]any{"middlewares": n, "short_circuit": short, "strict_middlewares": sn, "strict_short_circuit": sshort, "strict_with_options": wopts, "warmup": warm},
 									"req":  map[string]any{"method": rq.method, "target": rq.target, "header": rq.header, "body": rq.body}})
 								metas[id] = meta{v, rq, n, short, sn, sshort}
 								if wopts {
@@ -260,5 +266,5 @@ func runC14(r *Report, rng *rand.Rand, thorough bool) {
 	}
 	cases.WriteTo(r)
 	r.Exhaustive = thorough
-	r.Rule = "generated servers for 7 frameworks x {plain, strict} (+ first-to-last flag variants for chi, gorilla, std-http) compiled and served in process; every operation shape (no parameters, path / query / header parameters, body, security) x 0-3 per-operation middlewares x every short-circuit position x 0-2 strict middlewares x every strict short-circuit position x both strict constructors of the net/http flavours (NewStrictHandler, NewStrictHandlerWithOptions) (thorough: the whole product; quick: a third of the strict x per-operation combinations); trace of recording middlewares and stub handler compared with the model in Coq and with the documented order; non-trivial = at least one middleware installed"
+	r.Rule = "generated servers for 7 frameworks x {plain, strict} (+ first-to-last flag variants for chi, gorilla, std-http) compiled and served in process; every operation shape (no parameters, path / query / header parameters, body, security) x 0-3 per-operation middlewares x every short-circuit position x 0-2 strict middlewares x every strict short-circuit position x both strict constructors of the net/http flavours (NewStrictHandler, NewStrictHandlerWithOptions) x the observed request being the first, second or third served by the mounted handler (thorough: the whole product; quick: a third of the strict x per-operation combinations); trace of recording middlewares and stub handler compared with the model in Coq and with the documented order; non-trivial = at least one middleware installed"
 }
